@@ -183,6 +183,7 @@ type VC struct {
 	splitJoins    bool                 // contract clause `nomerge`: branches of if/switch are not joined until the end of the enclosing block
 	pendingOuts   []*State
 	blockOuts     []*State
+	Assumed       []string             // `ensures [assumed-...]` clauses met while verifying (assumptions, not obligations)
 	hintName      string               // display name for the obligations of the hint being applied
 	hintsSeen     map[string]bool     // `at <label>:` hints of the verified function that were reached
 	paramSlices   []paramSlice        // the same, with their element heap (frame facts are instantiated for them)
